@@ -1,4 +1,5 @@
 import AC.Drv.C02
+import AC.Drv.C09
 open AC.Drv
 
 def dispatch (line : String) : String :=
@@ -7,6 +8,7 @@ def dispatch (line : String) : String :=
   | op :: f =>
     let r := match op with
       | "c02" => handleC02 f
+      | "c09" => handleC09 f
       | _ => bad s!"unknown-op:{op}"
     r.render
 
